@@ -152,6 +152,26 @@ def char_context_stream(quick):
     return out
 
 
+def fullwidth_stream():
+    """the arms that step back and re-read a command (prev() + read_upper_command / a word reader) must re-read the CONVERTED
+    character: every command letter and every command word with its first letter, or all of it, in full-width characters, in
+    front of every suffix that makes an arm look ahead"""
+    fw = lambda s_: "".join(chr(ord(c) + 0xFEE0) if 0x21 <= ord(c) <= 0x7E else c for c in s_)
+    out = []
+    for letter in "abcdefgnrlopqvtyhijkmsuwxz":
+        for suf in ["Add=3", "2Add=3", "Add(3)", ".onNote(1,2)", ".Random=3", ".onTime(0,9,!4)", "4", "", "(1)", "=3", "++", "--", "1,2"]:
+            out.append(fw(letter) + suf + " c")
+            out.append("c " + fw(letter) + suf + " c")
+    for name in command_names():
+        for arg in ["(1)", "=1;", "", "{c}"]:
+            out.append(fw(name[0]) + name[1:] + arg + " c")
+            out.append(fw(name) + arg + " c")
+    for mark in "#$@[]:'{}()<>`\"|;/*~!?&":
+        out.append(fw(mark) + "A={c} " + fw(mark) + "A c")
+        out.append("c" + fw(mark) + "d")
+    return out
+
+
 def overflow_stream():
     """integer edge values reached by arithmetic (numerals saturate at 2^31-1, so they are built by squaring), every binary
     operator between every pair of them, as values of commands too; signs in front of empty / odd numerals after every
@@ -207,7 +227,7 @@ def long_log_stream(rng, quick):
 
 def run(ctx):
     rng = ctx.rng
-    srcs = endless_loop_stream() + long_log_stream(rng, ctx.tier == "quick") + overflow_stream() + grammar_stream(rng, ctx.tier == "quick") + char_context_stream(ctx.tier == "quick")
+    srcs = fullwidth_stream() + endless_loop_stream() + long_log_stream(rng, ctx.tier == "quick") + overflow_stream() + grammar_stream(rng, ctx.tier == "quick") + char_context_stream(ctx.tier == "quick")
     ctx.dist["grammar_and_char_streams"] = len(srcs)
     if ctx.tier == "quick":
         srcs += ["".join(p) for p in itertools.product(FRAGS, repeat=1)]
